@@ -1,6 +1,7 @@
 import TmVerif.Model.SetClosure
 import TmVerif.Proofs.IntSet
 import TmVerif.Proofs.SetClosureTarjan
+import TmVerif.Proofs.SetClosureMeasure
 /-!
 Specification of set-equation systems and the basic facts about the mirror of util/set/closure.go.
 
@@ -176,6 +177,31 @@ theorem assignAll_getD (sets : List IntSet) (comp : List Nat) (res : IntSet) (u 
         by_cases h3 : u < sets.length <;> simp [h1, h3]
       · have : ¬ v = u := fun e => h2 e.symm
         simp [h1, h2, this]
+
+/-! ### the explicit elements of all stored sets come from the slices given to `Add` -/
+
+/-- every element mentioned by the system -/
+def mlist (sys : Sys) : List Int := sys.flatMap (·.init)
+
+theorem mlist_length (sys : Sys) : (mlist sys).length = mentioned sys := by
+  unfold mlist mentioned
+  induction sys with
+  | nil => rfl
+  | cons n sys ih => simp [List.flatMap_cons, ih]
+
+theorem initOf_sub (sys : Sys) (v : Nat) : ∀ e ∈ initOf sys v, e ∈ mlist sys := by
+  intro e he
+  unfold initOf at he
+  cases h : sys[v]? with
+  | none => rw [h] at he; simp at he
+  | some n =>
+    rw [h] at he
+    simp only [Option.map_some, Option.getD_some] at he
+    unfold mlist
+    rw [List.mem_flatMap]
+    exact ⟨n, List.mem_of_getElem? h, he⟩
+
+def Bounded (sys : Sys) (x : St) : Prop := ∀ v, ∀ e ∈ (x.get v).set, e ∈ mlist sys
 
 /-! ### strongly connected components -/
 
